@@ -3,6 +3,8 @@ package main
 import (
 	"context"
 	"fmt"
+	"reflect"
+	"strings"
 	"unsafe"
 
 	"gorm.io/gorm"
@@ -111,6 +113,7 @@ type Stat struct {
 const schemaSQL = `
 CREATE TABLE companies (id integer primary key autoincrement, name text, note text, stamp text, mark text, ver integer default 0);
 CREATE TABLE staffs (id integer primary key autoincrement, name text, note text, stamp text, mark text, ver integer default 0, company_id integer);
+CREATE TABLE subs (id integer primary key autoincrement, name text, note text, stamp text, mark text, ver integer default 0);
 CREATE TABLE nodes (id integer primary key autoincrement, name text, note text, stamp text, mark text, ver integer default 0);
 CREATE TABLE node_peers (node_id integer, peer_id integer, primary key (node_id, peer_id));
 CREATE TABLE owners (id integer primary key autoincrement, name text, note text, stamp text, mark text, ver integer default 0);
@@ -121,8 +124,9 @@ CREATE TABLE stats (id integer primary key autoincrement, hits integer, note tex
 `
 
 const resetSQL = `
-DELETE FROM owners; DELETE FROM pets; DELETE FROM toys; DELETE FROM audits; DELETE FROM stats; DELETE FROM nodes; DELETE FROM staffs; DELETE FROM companies; DELETE FROM node_peers; DELETE FROM sqlite_sequence;
+DELETE FROM owners; DELETE FROM pets; DELETE FROM toys; DELETE FROM audits; DELETE FROM stats; DELETE FROM nodes; DELETE FROM subs; DELETE FROM staffs; DELETE FROM companies; DELETE FROM node_peers; DELETE FROM sqlite_sequence;
 INSERT INTO nodes (id,name,note,stamp,mark) VALUES (1,'n1','n','','');
+INSERT INTO subs (id,name,note,stamp,mark) VALUES (1,'o1','n','',''),(2,'o2','n','',''),(3,'o3','n','','');
 INSERT INTO companies (id,name,note,stamp,mark) VALUES (1,'c1','n','',''),(2,'c2','n','',''),(3,'c3','n','','');
 INSERT INTO staffs (id,name,note,stamp,mark,company_id) VALUES (1,'s1','n','','',1);
 INSERT INTO owners (id,name,note,stamp,mark) VALUES (1,'o1','n','',''),(2,'o2','n','',''),(3,'o3','n','','');
@@ -132,7 +136,7 @@ INSERT INTO audits (id,hook,tbl,name) VALUES (1,'seed','seed','seed');
 INSERT INTO stats (id,hits,note) VALUES (1,0,'');
 `
 
-var allTables = []string{"owners", "pets", "toys", "nodes", "node_peers", "companies", "staffs", "audits", "stats"}
+var allTables = []string{"owners", "pets", "toys", "nodes", "node_peers", "companies", "staffs", "subs", "audits", "stats"}
 
 // tables written by the hook bodies (not by the operation itself)
 func isHookTable(t string) bool { return t == "audits" || t == "stats" }
@@ -178,14 +182,23 @@ type hookEv struct {
 
 func (e hookEv) before() bool { return len(e.Hook) > 6 && e.Hook[:6] == "Before" }
 
+// fnCall is one call of the batch function of FindInBatches.
+type fnCall struct {
+	Batch int
+	Seq   int
+	Rows  int64
+	IDs   []uint
+}
+
 type execState struct {
 	x    *mc.Exec
 	env  *h.Env
 	log  []hookEv
 	nth  map[string]int
 	errs []*hookErr
-	body string // hook body variant (Case.Body)
-	hits int    // increments of stats.hits made so far by the hooks of this execution
+	fn   []fnCall // FindInBatches: calls of the batch function
+	body string   // hook body variant (Case.Body)
+	hits int      // increments of stats.hits made so far by the hooks of this execution
 }
 
 func stateOf(tx *gorm.DB) *execState {
@@ -468,4 +481,282 @@ func (o *Staff) AfterDelete(tx *gorm.DB) error {
 }
 func (o *Staff) AfterFind(tx *gorm.DB) error {
 	return fire(tx, "staffs", unsafe.Pointer(o), o.ID, o.Name, o.Ver, "AfterFind")
+}
+
+// ---------------------------------------------------------------------------
+// Models that implement only a SUBSET of the hooks: for every hook h a model
+// with exactly {h} and one with all hooks but h. The hook methods come from
+// zero-size mixin types embedded in front of SubBase (offset 0), so the
+// receiver's address is the record's address and SubBase can be read through it.
+
+type SubBase struct {
+	ID    uint
+	Name  string
+	Note  string
+	Stamp string
+	Mark  string
+	Ver   int
+}
+
+func (SubBase) TableName() string { return "subs" }
+
+var allHooks = []string{"BeforeSave", "BeforeCreate", "AfterCreate", "BeforeUpdate", "AfterUpdate", "AfterSave", "BeforeDelete", "AfterDelete", "AfterFind"}
+
+type mBeforeSave struct{}
+
+func (m *mBeforeSave) BeforeSave(tx *gorm.DB) error {
+	b := (*SubBase)(unsafe.Pointer(m))
+	return fire(tx, "subs", unsafe.Pointer(m), b.ID, b.Name, b.Ver, "BeforeSave")
+}
+
+type mBeforeCreate struct{}
+
+func (m *mBeforeCreate) BeforeCreate(tx *gorm.DB) error {
+	b := (*SubBase)(unsafe.Pointer(m))
+	return fire(tx, "subs", unsafe.Pointer(m), b.ID, b.Name, b.Ver, "BeforeCreate")
+}
+
+type mAfterCreate struct{}
+
+func (m *mAfterCreate) AfterCreate(tx *gorm.DB) error {
+	b := (*SubBase)(unsafe.Pointer(m))
+	return fire(tx, "subs", unsafe.Pointer(m), b.ID, b.Name, b.Ver, "AfterCreate")
+}
+
+type mBeforeUpdate struct{}
+
+func (m *mBeforeUpdate) BeforeUpdate(tx *gorm.DB) error {
+	b := (*SubBase)(unsafe.Pointer(m))
+	return fire(tx, "subs", unsafe.Pointer(m), b.ID, b.Name, b.Ver, "BeforeUpdate")
+}
+
+type mAfterUpdate struct{}
+
+func (m *mAfterUpdate) AfterUpdate(tx *gorm.DB) error {
+	b := (*SubBase)(unsafe.Pointer(m))
+	return fire(tx, "subs", unsafe.Pointer(m), b.ID, b.Name, b.Ver, "AfterUpdate")
+}
+
+type mAfterSave struct{}
+
+func (m *mAfterSave) AfterSave(tx *gorm.DB) error {
+	b := (*SubBase)(unsafe.Pointer(m))
+	return fire(tx, "subs", unsafe.Pointer(m), b.ID, b.Name, b.Ver, "AfterSave")
+}
+
+type mBeforeDelete struct{}
+
+func (m *mBeforeDelete) BeforeDelete(tx *gorm.DB) error {
+	b := (*SubBase)(unsafe.Pointer(m))
+	return fire(tx, "subs", unsafe.Pointer(m), b.ID, b.Name, b.Ver, "BeforeDelete")
+}
+
+type mAfterDelete struct{}
+
+func (m *mAfterDelete) AfterDelete(tx *gorm.DB) error {
+	b := (*SubBase)(unsafe.Pointer(m))
+	return fire(tx, "subs", unsafe.Pointer(m), b.ID, b.Name, b.Ver, "AfterDelete")
+}
+
+type mAfterFind struct{}
+
+func (m *mAfterFind) AfterFind(tx *gorm.DB) error {
+	b := (*SubBase)(unsafe.Pointer(m))
+	return fire(tx, "subs", unsafe.Pointer(m), b.ID, b.Name, b.Ver, "AfterFind")
+}
+
+type SubOnlyBeforeSave struct {
+	mBeforeSave
+	SubBase
+}
+
+type SubAllButBeforeSave struct {
+	mBeforeCreate
+	mAfterCreate
+	mBeforeUpdate
+	mAfterUpdate
+	mAfterSave
+	mBeforeDelete
+	mAfterDelete
+	mAfterFind
+	SubBase
+}
+
+type SubOnlyBeforeCreate struct {
+	mBeforeCreate
+	SubBase
+}
+
+type SubAllButBeforeCreate struct {
+	mBeforeSave
+	mAfterCreate
+	mBeforeUpdate
+	mAfterUpdate
+	mAfterSave
+	mBeforeDelete
+	mAfterDelete
+	mAfterFind
+	SubBase
+}
+
+type SubOnlyAfterCreate struct {
+	mAfterCreate
+	SubBase
+}
+
+type SubAllButAfterCreate struct {
+	mBeforeSave
+	mBeforeCreate
+	mBeforeUpdate
+	mAfterUpdate
+	mAfterSave
+	mBeforeDelete
+	mAfterDelete
+	mAfterFind
+	SubBase
+}
+
+type SubOnlyBeforeUpdate struct {
+	mBeforeUpdate
+	SubBase
+}
+
+type SubAllButBeforeUpdate struct {
+	mBeforeSave
+	mBeforeCreate
+	mAfterCreate
+	mAfterUpdate
+	mAfterSave
+	mBeforeDelete
+	mAfterDelete
+	mAfterFind
+	SubBase
+}
+
+type SubOnlyAfterUpdate struct {
+	mAfterUpdate
+	SubBase
+}
+
+type SubAllButAfterUpdate struct {
+	mBeforeSave
+	mBeforeCreate
+	mAfterCreate
+	mBeforeUpdate
+	mAfterSave
+	mBeforeDelete
+	mAfterDelete
+	mAfterFind
+	SubBase
+}
+
+type SubOnlyAfterSave struct {
+	mAfterSave
+	SubBase
+}
+
+type SubAllButAfterSave struct {
+	mBeforeSave
+	mBeforeCreate
+	mAfterCreate
+	mBeforeUpdate
+	mAfterUpdate
+	mBeforeDelete
+	mAfterDelete
+	mAfterFind
+	SubBase
+}
+
+type SubOnlyBeforeDelete struct {
+	mBeforeDelete
+	SubBase
+}
+
+type SubAllButBeforeDelete struct {
+	mBeforeSave
+	mBeforeCreate
+	mAfterCreate
+	mBeforeUpdate
+	mAfterUpdate
+	mAfterSave
+	mAfterDelete
+	mAfterFind
+	SubBase
+}
+
+type SubOnlyAfterDelete struct {
+	mAfterDelete
+	SubBase
+}
+
+type SubAllButAfterDelete struct {
+	mBeforeSave
+	mBeforeCreate
+	mAfterCreate
+	mBeforeUpdate
+	mAfterUpdate
+	mAfterSave
+	mBeforeDelete
+	mAfterFind
+	SubBase
+}
+
+type SubOnlyAfterFind struct {
+	mAfterFind
+	SubBase
+}
+
+type SubAllButAfterFind struct {
+	mBeforeSave
+	mBeforeCreate
+	mAfterCreate
+	mBeforeUpdate
+	mAfterUpdate
+	mAfterSave
+	mBeforeDelete
+	mAfterDelete
+	SubBase
+}
+
+// subsetTypes maps "only:<hook>" / "allbut:<hook>" to the model type.
+var subsetTypes = map[string]reflect.Type{
+	"only:BeforeSave":     reflect.TypeOf(SubOnlyBeforeSave{}),
+	"allbut:BeforeSave":   reflect.TypeOf(SubAllButBeforeSave{}),
+	"only:BeforeCreate":   reflect.TypeOf(SubOnlyBeforeCreate{}),
+	"allbut:BeforeCreate": reflect.TypeOf(SubAllButBeforeCreate{}),
+	"only:AfterCreate":    reflect.TypeOf(SubOnlyAfterCreate{}),
+	"allbut:AfterCreate":  reflect.TypeOf(SubAllButAfterCreate{}),
+	"only:BeforeUpdate":   reflect.TypeOf(SubOnlyBeforeUpdate{}),
+	"allbut:BeforeUpdate": reflect.TypeOf(SubAllButBeforeUpdate{}),
+	"only:AfterUpdate":    reflect.TypeOf(SubOnlyAfterUpdate{}),
+	"allbut:AfterUpdate":  reflect.TypeOf(SubAllButAfterUpdate{}),
+	"only:AfterSave":      reflect.TypeOf(SubOnlyAfterSave{}),
+	"allbut:AfterSave":    reflect.TypeOf(SubAllButAfterSave{}),
+	"only:BeforeDelete":   reflect.TypeOf(SubOnlyBeforeDelete{}),
+	"allbut:BeforeDelete": reflect.TypeOf(SubAllButBeforeDelete{}),
+	"only:AfterDelete":    reflect.TypeOf(SubOnlyAfterDelete{}),
+	"allbut:AfterDelete":  reflect.TypeOf(SubAllButAfterDelete{}),
+	"only:AfterFind":      reflect.TypeOf(SubOnlyAfterFind{}),
+	"allbut:AfterFind":    reflect.TypeOf(SubAllButAfterFind{}),
+}
+
+func init() {
+	for k, t := range subsetTypes {
+		if f, _ := t.FieldByName("SubBase"); f.Offset != 0 {
+			panic("subset model " + k + ": SubBase is not at offset 0")
+		}
+	}
+}
+
+// implemented reports whether the subset model of the case implements hook h.
+func implemented(subset, h string) bool {
+	switch {
+	case subset == "":
+		return true
+	case strings.HasPrefix(subset, "only:"):
+		return subset[5:] == h
+	case strings.HasPrefix(subset, "allbut:"):
+		return subset[7:] != h
+	}
+	return true
 }
